@@ -668,6 +668,14 @@ func (a *jwtAuthenticator) calculateCacheKey(ep *endpoint.Endpoint, renderedURL,
 	digest.Write([]byte{0})
 	digest.Write(stringx.ToBytes(reference))
 
+	// an entry is valid for the time configured for the authenticator which stored it, and
+	// must not be reused by an authenticator configured with another cache ttl
+	digest.Write([]byte{0})
+
+	if a.ttl != nil {
+		digest.Write(stringx.ToBytes(a.ttl.String()))
+	}
+
 	return hex.EncodeToString(digest.Sum(nil))
 }
 
